@@ -249,6 +249,11 @@ func (d *interfaceDecoder) decodeStreamEmptyInterface(s *Stream, depth int64, p 
 						continue
 					}
 					return errors.ErrUnexpectedEndOfJSON("string", s.totalOffset())
+				default:
+					if s.char() < 0x20 {
+						// control characters must be escaped
+						return errors.ErrInvalidCharacter(s.char(), "string literal", s.totalOffset())
+					}
 				}
 				s.cursor++
 			}
